@@ -10,7 +10,7 @@ import (
 // removeRange returns the case with input bytes [a,b) removed and every file
 // length and read step shrunk by its overlap with the range.
 func removeRange(c Case, a, b int) Case {
-	d := Case{Multi: c.Multi, Note: c.Note}
+	d := Case{Multi: c.Multi, Note: c.Note, Sched: c.Sched}
 	d.Input = append(append([]byte(nil), c.Input[:a]...), c.Input[b:]...)
 	overlap := func(lo, hi int) int { // bytes of [lo,hi) inside [a,b)
 		l, h := max(lo, a), min(hi, b)
@@ -98,7 +98,7 @@ func Minimise(h Hooks, c Case, class string, maxAttempts int) (Case, int) {
 		if len(cur.Files) > 1 || cur.Multi || planSize(cur) > 2 {
 			k := cur.ErrK()
 			n := len(cur.Input)
-			simple := Case{Input: cur.Input, Note: cur.Note}
+			simple := Case{Input: cur.Input, Note: cur.Note, Sched: cur.Sched}
 			if k >= 0 {
 				simple.Files = []FileSpec{{Len: n, Steps: cutSteps([]Step{{N: n}}, k, false)}}
 			} else {
